@@ -610,6 +610,7 @@ def harnesses(tier, seed):
         if a == names[0]:
             ctx.sample({"first": a, "second": "each of the other %d remote datasets" % (len(names) - 1)})
     hs.append({"name": "dataset-pairs", "body": pairs_body, "bound_text": "all ordered pairs of remote datasets"})
-    from checks import c19_model
+    from checks import c19_model, c19_cross
+    hs.extend(c19_cross.harnesses(tier, seed))
     hs.extend(c19_model.harnesses(tier, seed))
     return hs
